@@ -11,6 +11,9 @@ def gen_script(rng):
         body = []
         if q == "o" and i > 1:
             body = [rng.randrange(1, i) for _ in range(rng.randint(0, 3))]
+        elif q == "e" and i > 1 and rng.random() < 0.5:
+            # a set-up closure that queues further work while the transaction closes (a switch built by a mapping function)
+            body = [rng.randrange(1, i) for _ in range(rng.randint(1, 2))]
         lines.append(f"def {i} {q} " + " ".join(map(str, body)))
     depth = 0
     scoped = []
@@ -18,7 +21,10 @@ def gen_script(rng):
         r = rng.random()
         if r < 0.25: lines.append("enter"); depth += 1
         elif r < 0.45 and depth > 0: lines.append("leave"); depth -= 1     # depth counts closure-style enters only
-        elif r < 0.8: lines.append(f"push {rng.randint(1, n)}")
+        elif r < 0.7: lines.append(f"push {rng.randint(1, n)}")
+        elif r < 0.8:
+            # closures pushed by the propagation of the closing transaction (what a handler or a mapping function builds)
+            lines.append("upd " + " ".join(str(rng.randint(1, n)) for _ in range(rng.randint(1, 3))))
         elif r < 0.9: t = f"t{len(scoped)}"; scoped.append(t); lines.append(f"topen {t}")
         elif scoped: lines.append(f"tclose {rng.choice(scoped)}")
     for t in scoped: lines.append(f"tclose {t}")
